@@ -410,6 +410,9 @@ func (f *fragment) openStorage(unmarshalData bool) error {
 			return fmt.Errorf("unmarshal storage: file=%s, err=%s", f.file.Name(), err)
 		}
 		f.rowCache = &simpleCache{make(map[uint64]*Row)}
+		// The storage contents were replaced, so cached block checksums
+		// no longer describe them.
+		f.checksums = make(map[int][]byte)
 		f.ops, f.opN = f.storage.Ops()
 	} else {
 		// we're moving to new storage, so instead of using the OpN
@@ -820,6 +823,9 @@ func (f *fragment) unprotectedSetRow(row *Row, rowID uint64) (changed bool, err 
 		}
 	}
 
+	// Invalidate block checksum.
+	delete(f.checksums, int(rowID/HashBlockSize))
+
 	// Update the row in cache.
 	if f.CacheType != CacheTypeNone {
 		n := f.storage.CountRange(rowID*ShardWidth, (rowID+1)*ShardWidth)
@@ -868,6 +874,9 @@ func (f *fragment) unprotectedClearRow(rowID uint64) (changed bool, err error) {
 			changed = true
 		}
 	}
+
+	// Invalidate block checksum.
+	delete(f.checksums, int(rowID/HashBlockSize))
 
 	// Clear the row in cache.
 	f.cache.Add(rowID, 0)
@@ -2225,8 +2234,9 @@ func (f *fragment) importValue(columnIDs []uint64, values []int64, bitDepth uint
 		return err
 	}
 	// The bits were written straight to storage, so rows materialized
-	// before this import are stale.
+	// before this import are stale, and so are the block checksums.
 	f.rowCache = &simpleCache{make(map[uint64]*Row)}
+	f.checksums = make(map[int][]byte)
 
 	// We don't actually care, except we want our stats to be accurate.
 	f.incrementOpN(totalChanges)
@@ -2265,6 +2275,8 @@ func (f *fragment) importRoaring(ctx context.Context, data []byte, clear bool) e
 		if changes == 0 {
 			continue
 		}
+		// Invalidate block checksum.
+		delete(f.checksums, int(rowID/HashBlockSize))
 		f.rowCache.Add(rowID, nil)
 		if updateCache {
 			anyChanged = true
